@@ -5,7 +5,7 @@ import concur
 import core
 import oracles
 
-SAFE = ["Model/Exec.v", "Model/ExecInv.v", "Proofs/ExecSafe.v"]
+SAFE = ["Model/Exec.v", "Model/ExecInv.v", "Proofs/ExecSafe.v", "Proofs/ExecCor.v"]
 LIVE = SAFE + ["Proofs/ExecLive.v", "Proofs/ExecMeasure.v"]
 
 TABLE = {
